@@ -106,7 +106,7 @@ class SetItemDispatch(Family):
     qualname = "npstructures.raggedarray.indexablearray:IndexableArray.__setitem__"
     serves = ["C03"]
     assumed = ["callee contracts: _get_row_subset / _get_view give the C02 address map (verified in the C02 families)",
-               "callee contract: RaggedShape.broadcast_values(column) (bounded stand-in)"]
+               "callee contract: RaggedShape.broadcast_values(column) (proved: RaggedShape.broadcast_values / _raw_broadcast)"]
 
     def kinds(self):
         return ["flat:scalar", "flat:array", "ragged:scalar", "ragged:ragged-match", "ragged:ragged-mismatch", "ragged:flatarray",
